@@ -77,6 +77,11 @@ func (w *World) StreamSession(name string, maxMsgs int64, ackFrac, nackFrac floa
 		}
 		for _, b := range batches {
 			room := capacity - len(pending)
+			for _, rm := range b.Msgs {
+				if pending[rm.AckId] {
+					room++ // a re-send of something already counted
+				}
+			}
 			if room > 100 {
 				room = 100
 			}
@@ -161,9 +166,8 @@ func (w *World) StreamSession(name string, maxMsgs int64, ackFrac, nackFrac floa
 					w.stat("wild_stream_nack_deadletter", 1)
 				}
 			}
-			// NOTE: whether a nacked message frees capacity is C11's business; the
-			// history properties only need the lease effect, so we stop tracking
-			// capacity precisely from here on.
+			// a nack releases the slot; the message may be sent again in this session
+			delete(pending, id)
 		}
 		if len(nacks) > 0 {
 			idleCheck = false
